@@ -676,6 +676,16 @@ def heading_test_is_prefix(ctx: Ctx, rep: Report, rid: str = "R15.15") -> None:
     rebound = [x for x in own_nodes(f.node) if isinstance(x, ast.Name) and x.id == gb and isinstance(x.ctx, ast.Store)]
     tests = [x for x in own_nodes(f.node) if isinstance(x, ast.Call) and isinstance(x.func, ast.Attribute) and x.func.attr == "startswith" and src(x.func.value).endswith(".text")]
     rep.instance()
+    if not tests:
+        # the prefix used as a regular expression: only with re.escape is it the same test
+        rx_calls = [x for x in own_nodes(f.node) if isinstance(x, ast.Call) and isinstance(x.func, ast.Attribute) and isinstance(x.func.value, ast.Name) and x.func.value.id == "re" and any(isinstance(y, ast.Name) and y.id == gb for a in x.args for y in ast.walk(a))]
+        if rx_calls:
+            c = rx_calls[0]
+            if any(isinstance(y, ast.Call) and src(y.func) == "re.escape" for a in c.args for y in ast.walk(a)):
+                rep.ok(f"Acl.group: {snippet(c, 50)}", "the prefix is matched as an escaped pattern at the start of the text", where=where(f, c))
+            else:
+                rep.violation("Acl.group", snippet(c, 60), f"`{gb}` is used as a regular expression without re.escape: '| ' matches every remark, '*** ' raises re.error, '[x] ' never matches - the headings found are not the remarks that start with the prefix", where(f, c), inp="group_by='| '")
+            return
     rep.require(bool(tests), "Acl.group no longer tests the remark text with startswith")
     for t in tests:
         if len(t.args) == 1 and isinstance(t.args[0], ast.Name) and t.args[0].id == gb and not rebound:
